@@ -39,7 +39,7 @@ def check(ctx):
         # on the reverted edge state_after is reset before update_tx_outputs
         resets = []
         for bb, j, s in b.stmts():
-            if bb in b.live and s["k"] == "assign" and b.local_name(s["pl"]["l"]) == "state_after" and not s["pl"].get("p"):
+            if bb in b.live and s["k"] == "assign" and not s["pl"].get("p") and any(ctx.same_local(b, {"k": "copy", "l": s["pl"]["l"]}, a) for a in upd.args):
                 resets.append((bb, s))
         edges_true = [(sw.bb, lab) for sw, pol in rev for lab in sw.edges_for_truth(True if pol else False)]
         starts = [ctx._edge_target(b, e) for e in edges_true]
